@@ -37,7 +37,7 @@ import core
 from props import c06 as base
 
 LEAN_MODULE = "Optyx.Props.C20"
-EXTRA_MODULES = ["Optyx.Props.PinsC20", "Optyx.Props.BuildTie"]   # transcription anchors (harness/source_pins.py)
+EXTRA_MODULES = ["Optyx.Props.PinsC20", "Optyx.Props.BuildTie", "Optyx.Props.HookTie"]   # transcription anchors (harness/source_pins.py)
 THEOREMS = [
     "Optyx.Props.C20.hook_restored",
     "Optyx.Props.C20.reclimit_unchanged",
@@ -50,6 +50,9 @@ THEOREMS = [
     "Optyx.Props.Dispatch.solve_route_eq_generated",
     "Optyx.Props.BuildTie.compile_step",
     "Optyx.Props.BuildTie.compileVec_step",
+    "Optyx.Props.HookTie.hook_restored_of_source_shape",
+    "Optyx.Props.HookTie.hook_installed_during_call",
+    "Optyx.Props.HookTie.flow_of_source_shape",
     "Optyx.Props.PinsC20.anchors",
 ]
 ASSUMPTIONS = [
